@@ -29,7 +29,8 @@ ToOne == [ Author |-> [ org |-> <<"Org", "org">>, info |-> <<"AuthorInfo", "info
            PostInfo |-> [ none_ |-> <<"PostInfo", "none_">> ],
            AuthorInfo |-> [ none_ |-> <<"AuthorInfo", "none_">> ],
            Comment |-> [ post |-> <<"Post", "post">> ],
-           Org |-> [ none_ |-> <<"Org", "none_">> ] ]
+           \* Org.lead leads back to Author: a path can return to a model it has already passed (or started from)
+           Org |-> [ lead |-> <<"Author", "lead">> ] ]
 \* collections: model -> name -> <<kind, target model, fk column on target / m2m side>>
 ToMany == [ Org |-> [ authors |-> <<"fk", "Author", "org">> ],
             Author |-> [ posts |-> <<"fk", "Post", "author">>, edited |-> <<"m2m", "Post", "author">> ],
